@@ -57,6 +57,10 @@ pub struct Case {
     pub steps: Vec<Step>,
     /// duplication (0=None,1=Error..5=Trace,6=All) for stderr / stdout; Some => child process
     pub dup: Option<(u8, u8)>,
+    /// index of a File writer whose every write fails (injected at the hook point "write", like a
+    /// full device): it receives nothing, and nobody else may receive what was meant for it
+    #[serde(default)]
+    pub faulty: Option<usize>,
 }
 
 pub struct P;
@@ -192,6 +196,11 @@ fn execute(case: &Case, sc_dir: &Path, with_dup: bool) -> Result<Routed, String>
         }
     }
     let (log, mut handle) = l.build().map_err(|e| format!("build: {e:?}"))?;
+    if let Some(fi) = case.faulty.filter(|fi| case.writers.get(*fi).is_some_and(|w| w.kind == WKind::File)) {
+        let hh = crate::hooks::h();
+        hh.points.lock().unwrap_or_else(|p| p.into_inner()).fault_write_path = Some(format!("/w{fi}/"));
+        hh.set_mode(crate::hooks::MODE_FAULT);
+    }
     let mut idx = 0;
     for st in &case.steps {
         match st {
@@ -222,6 +231,7 @@ fn execute(case: &Case, sc_dir: &Path, with_dup: bool) -> Result<Routed, String>
     }
     handle.flush();
     handle.shutdown();
+    crate::hooks::h().set_mode(crate::hooks::MODE_OFF);
     let primary: Vec<String> = prim_rec.handed.lock().unwrap().iter().map(|g| g.msg.clone()).collect();
     let mut per_writer = Vec::new();
     let mut syslog_raw = Vec::new();
@@ -298,9 +308,15 @@ impl Property for P {
             .prop_flat_map(|(spec, ws, dup)| {
                 let writers: Vec<WSpec> = ws.into_iter().map(|(name, (kind, ceiling))| WSpec { name, kind, ceiling }).collect();
                 let names = writers.iter().map(|w| w.name.clone()).collect();
-                (Just(spec), Just(writers), steps_strat(names, dup.is_some()), Just(dup))
+                let files: Vec<usize> = writers.iter().enumerate().filter(|(_, w)| w.kind == WKind::File).map(|(i, _)| i).collect();
+                let faulty = if files.is_empty() {
+                    Just(None).boxed()
+                } else {
+                    prop::option::weighted(0.3, proptest::sample::select(files)).boxed()
+                };
+                (Just(spec), Just(writers), steps_strat(names, dup.is_some()), Just(dup), faulty)
             })
-            .prop_map(|(spec, writers, steps, dup)| Case { spec, writers, steps, dup })
+            .prop_map(|(spec, writers, steps, dup, faulty)| Case { spec, writers, steps, dup, faulty })
             .boxed()
     }
 
@@ -391,6 +407,16 @@ impl Property for P {
                     last_was_adapt = true;
                 }
             }
+        }
+        let faulty = case.faulty.filter(|fi| case.writers.get(*fi).is_some_and(|w| w.kind == WKind::File));
+        if let Some(fi) = faulty {
+            if !exp_w[fi].is_empty() {
+                out.class("failing-file-writer-addressed");
+                if case.writers.len() >= 2 {
+                    nontrivial = true;
+                }
+            }
+            exp_w[fi].clear();
         }
         for w in &case.writers {
             out.class(match w.kind {
